@@ -56,7 +56,8 @@ negotiated channels are set Open and get an `Open` event; in-band ones in state 
 their DCEP OPEN (re)sent -/
 def openChannels (pl : Pl) : Pl :=
   let chans := pl.chans.map (fun c => if c.negotiated then openOnce c else c)
-  let acts := pl.acts ++ (pl.chans.filter (fun c => !c.negotiated && c.state == 0)).map (fun c => Act.dcepOpen c.id)
+  -- `send_dcep_open` refuses a label / protocol that does not fit DCEP's 16-bit lengths
+  let acts := pl.acts ++ (pl.chans.filter (fun c => !c.negotiated && c.state == 0 && c.label.length ≤ 65535 && c.protocol.length ≤ 65535)).map (fun c => Act.dcepOpen c.id)
   { pl with chans := chans, acts := acts }
 
 /-- State Cookie parameter (type 7) of an INIT-ACK value, as `handle_init_ack` finds it (last one wins) -/
